@@ -46,8 +46,29 @@ impl OptChainVisitor<'_> {
              *  the expected this property:
              *
              *  (_1 = obj, _2 = _1.b, _2 == null ? undefined : _2.call(_1, arg1, arg2))
+             *
+             * the same holds when the callee is itself an optional member access, obj?.b?.(arg1), or
+             *  is parenthesised, (obj.b)?.(arg1): the call keeps obj as its this
+             *
+             *  (_1 = obj, _2 = _1?.b, _2 == null ? undefined : _2.call(_1, arg1))
              */
-            if let Expr::Member(mut member_expr) = *call_expr.callee.clone() {
+            let mut callee = &*call_expr.callee;
+            while let Expr::Paren(paren) = callee {
+                callee = &*paren.expr;
+            }
+            let callee_member = match callee {
+                Expr::Member(member) => Some((member.clone(), false)),
+                Expr::OptChain(OptChainExpr {
+                    base,
+                    optional: true,
+                    ..
+                }) => match &**base {
+                    OptChainBase::Member(member) => Some((member.clone(), true)),
+                    _ => None,
+                },
+                _ => None,
+            };
+            if let Some((mut member_expr, member_optional)) = callee_member {
                 let mut member_obj_arguments = Vec::new();
                 let span = DUMMY_SP;
                 let member_obj_ident_opt = self.ident_provider.get_ident_used_in_assignation(
@@ -67,9 +88,18 @@ impl OptChainVisitor<'_> {
 
                     member_expr.map_with_mut(|_| new_member_expr);
 
+                    let member_access = if member_optional {
+                        Expr::OptChain(OptChainExpr {
+                            span: DUMMY_SP,
+                            optional: true,
+                            base: Box::new(OptChainBase::Member(member_expr.clone())),
+                        })
+                    } else {
+                        Expr::Member(member_expr.clone())
+                    };
                     let mut member_expr_args = Vec::new();
                     let member_expr_ident_opt = self.ident_provider.get_ident_used_in_assignation(
-                        &Expr::Member(member_expr.clone()),
+                        &member_access,
                         &mut self.assignments,
                         &mut member_expr_args,
                         &span,
